@@ -70,6 +70,16 @@ def as_lists(array):
     return array
 
 
+def single(value):
+    """ A one-cell range ([[v]]) or one-item array ([v]) given where one value is expected is that
+    value (at any depth: the functions that take many values flatten at any depth too). """
+    if isinstance(value, (list, tuple)):
+        items = flatten(value)
+        if len(items) == 1:
+            return items[0]
+    return value
+
+
 def plain_number(number):
     """ The number as a plain int or float.  A host may hand in instances of subclasses (a member of an
     IntEnum, a numpy.float64): the statistics module converts its result back to the class of the
